@@ -437,7 +437,423 @@ def fam_in_narrowing(rng):
     return "\n".join([HEADER, *body]) + "\n"
 
 
+# ---------------------------------------------------------------------------
+# imports that the checked program never executes (the checker alone resolves them), of standard-library submodules that
+# neither pyanalyze nor its dependencies load; and unrelated "history" programs that load the same submodules another way
+
+# (dotted submodule, one attribute of it)
+SUBMODULES = [
+    ("wsgiref.util", "guess_scheme"), ("wsgiref.headers", "Headers"), ("wsgiref.validate", "validator"),
+    ("wsgiref.simple_server", "make_server"), ("xml.dom.minidom", "parseString"), ("xml.dom.pulldom", "parseString"),
+    ("xml.sax.handler", "ContentHandler"), ("xml.sax.saxutils", "escape"), ("xml.etree.ElementTree", "fromstring"),
+    ("email.mime.text", "MIMEText"), ("email.mime.multipart", "MIMEMultipart"), ("email.headerregistry", "Address"),
+    ("json.tool", "main"), ("logging.handlers", "RotatingFileHandler"), ("logging.config", "dictConfig"),
+    ("ctypes.util", "find_library"), ("http.cookies", "SimpleCookie"), ("http.cookiejar", "CookieJar"),
+    ("http.server", "HTTPServer"), ("urllib.robotparser", "RobotFileParser"), ("dbm.dumb", "open"),
+    ("xmlrpc.client", "ServerProxy"), ("html.parser", "HTMLParser"), ("concurrent.futures.thread", "ThreadPoolExecutor"),
+    ("curses.ascii", "isalpha"), ("encodings.idna", "ToASCII"),
+]
+# how P imports: statement template, expression that names the attribute afterwards
+IMPORT_FORMS = ["import a.b", "import a.b as c", "from a import b", "from a.b import x", "from a.b import x as y", "import a.b, p.q"]
+# where the import statement of P sits
+IMPORT_PLACES = ["def", "type-checking", "try-in-def", "nested-def", "class-in-def", "if-in-def", "module-level"]
+# what P uses afterwards: the submodule it imported / a sibling submodule it never imports / it imports only the package
+IMPORT_SHAPES = ["own", "own", "own", "own", "own", "own", "sibling", "package-only"]
+# how the unrelated history program H gets the submodule loaded (the last two do not load it: controls)
+HISTORY_FORMS = ["module-import-as", "module-import", "module-from-package", "module-from-submodule", "def-import-as",
+                 "def-from-submodule", "def-import", "importlib", "other-submodule-of-package", "package-only"]
+
+_P_FUNCS = ["content_type", "build", "lookup", "convert", "prepare", "resolve"]
+_H_FUNCS = ["scheme", "helper", "collect", "render", "dispatch", "inspect"]
+
+
+def _siblings(dotted: str) -> list:
+    top = dotted.split(".")[0]
+    return [e for e in SUBMODULES if e[0].split(".")[0] == top and e[0] != dotted]
+
+
+def _import_stmt(form: str, dotted: str, attr: str, alias: str, second=None):
+    """-> (statement, expression naming `attr` of the submodule, expression naming the submodule)"""
+    pkg, _, sub = dotted.rpartition(".")
+    if form == "import a.b":
+        return f"import {dotted}", f"{dotted}.{attr}", dotted
+    if form == "import a.b as c":
+        return f"import {dotted} as {alias}", f"{alias}.{attr}", alias
+    if form == "from a import b":
+        return f"from {pkg} import {sub}", f"{sub}.{attr}", sub
+    if form == "from a.b import x":
+        return f"from {dotted} import {attr}", attr, None
+    if form == "from a.b import x as y":
+        return f"from {dotted} import {attr} as {alias}_{attr}", f"{alias}_{attr}", None
+    if form == "import a.b, p.q":
+        return f"import {dotted}, {second[0]}", f"{dotted}.{attr}", dotted
+    raise KeyError(form)
+
+
+def gen_import_program(rng, entry=None, form=None, place=None, shape=None):
+    """-> (source of P, the dotted submodule whose presence decides what P's uses mean, description).
+    P never shares a name with the history programs of gen_import_history."""
+    entry = entry or rng.choice(SUBMODULES)
+    form = form or rng.choice(IMPORT_FORMS)
+    place = place or rng.choice(IMPORT_PLACES)
+    shape = shape or rng.choice(IMPORT_SHAPES)
+    dotted, attr = entry
+    sibs = _siblings(dotted)
+    if shape == "sibling" and not sibs:
+        shape = "own"
+    alias = rng.choice(["mod", "sub", "lib", "impl"])
+    second = rng.choice([e for e in SUBMODULES if e[0].split(".")[0] != dotted.split(".")[0]])
+    fn = rng.choice(_P_FUNCS)
+    uses: list = []
+    if shape == "own":
+        stmt, expr, modexpr = _import_stmt(form, dotted, attr, alias, second)
+        target = dotted
+        if form == "import a.b, p.q":
+            uses.append(f"print({second[0]}.{second[1]})")
+    elif shape == "sibling":
+        # the program imports a.b and goes on to use a.c, which it never imports
+        stmt, _, _ = _import_stmt("import a.b" if form.startswith("from") else form, dotted, attr, alias, second)
+        sib = rng.choice(sibs)
+        target = sib[0]
+        if form == "import a.b as c":
+            stmt += f"\nimport {dotted.split('.')[0]}"  # the alias does not bind the package name
+        expr, modexpr = f"{sib[0]}.{sib[1]}", sib[0]
+    else:
+        # the program imports the package only and uses a submodule through it
+        top = dotted.split(".")[0]
+        stmt = f"import {top}"
+        target, expr, modexpr = dotted, f"{dotted}.{attr}", dotted
+    use_pool = [f"value = {expr}", f"print({expr})", f"reveal_type({expr}.__name__)", f"value = [{expr}, {expr}.__doc__]"]
+    if modexpr is not None:
+        use_pool += [f"reveal_type({modexpr}.__name__)", f"print({modexpr})"]
+    uses = rng.sample(use_pool, rng.randrange(1, 3)) + uses + [f"return {expr}"]
+    ind = "    "
+    imp = stmt.split("\n")
+    if place == "def":
+        body = [f"def {fn}(name):", *[ind + s for s in imp], *[ind + u for u in uses]]
+    elif place == "type-checking":
+        body = ["from typing import TYPE_CHECKING", "if TYPE_CHECKING:", *[ind + s for s in imp], "", f"def {fn}(name):", *[ind + u for u in uses]]
+    elif place == "try-in-def":
+        body = [f"def {fn}(name):", ind + "try:", *[ind * 2 + s for s in imp], ind + f"except {rng.choice(['ImportError', 'Exception'])}:",
+                ind * 2 + "return None", *[ind + u for u in uses]]
+    elif place == "nested-def":
+        body = [f"def {fn}(name):", ind + "def inner():", *[ind * 2 + s for s in imp], *[ind * 2 + u for u in uses], ind + "return inner"]
+    elif place == "class-in-def":
+        body = [f"def {fn}(name):", ind + "class Holder:", *[ind * 2 + s for s in imp], ind * 2 + f"member = {expr}",
+                *[ind * 2 + u for u in uses if not u.startswith("return")], ind + "return Holder.member"]
+    elif place == "if-in-def":
+        body = [f"def {fn}(name):", ind + "if name:", *[ind * 2 + s for s in imp], *[ind * 2 + u for u in uses], ind + "return None"]
+    elif place == "module-level":
+        # control: the program's own top-level code really executes the import
+        body = [*imp, "", f"def {fn}(name):", *[ind + u for u in uses]]
+    else:
+        raise KeyError(place)
+    eff = {"own": form, "sibling": "import a.b" if form.startswith("from") else form, "package-only": "import a"}[shape]
+    return "\n".join(body) + "\n", target, f"{eff}/{place}/{shape}"
+
+
+def gen_import_history(rng, target: str, hform=None):
+    """An unrelated program (no name in common with gen_import_program's) that gets `target` loaded in its own way."""
+    hform = hform or rng.choice(HISTORY_FORMS)
+    attr = next((a for d, a in SUBMODULES if d == target), "__name__")
+    pkg, _, sub = target.rpartition(".")
+    fn = rng.choice(_H_FUNCS)
+    alias = rng.choice(["wu", "hx", "tool", "backend"])
+    ind = "    "
+    if hform == "module-import-as":
+        body = [f"import {target} as {alias}", "", f"def {fn}(environ):", ind + f"return {alias}.{attr}"]
+    elif hform == "module-import":
+        body = [f"import {target}", "", f"def {fn}(environ):", ind + f"return {target}.{attr}"]
+    elif hform == "module-from-package":
+        body = [f"from {pkg} import {sub} as {alias}", "", f"def {fn}(environ):", ind + f"return {alias}.{attr}"]
+    elif hform == "module-from-submodule":
+        body = [f"from {target} import {attr} as {alias}", "", f"def {fn}(environ):", ind + f"return {alias}"]
+    elif hform == "def-import-as":
+        body = [f"def {fn}(environ):", ind + f"import {target} as {alias}", ind + f"return {alias}.{attr}"]
+    elif hform == "def-from-submodule":
+        body = [f"def {fn}(environ):", ind + f"from {target} import {attr} as {alias}", ind + f"return {alias}"]
+    elif hform == "def-import":
+        body = [f"def {fn}(environ):", ind + f"import {target}", ind + f"return {target}.{attr}"]
+    elif hform == "importlib":
+        body = ["import importlib", f"{alias} = importlib.import_module({target!r})", "", f"def {fn}(environ):", ind + f"return {alias}.{attr}"]
+    elif hform == "other-submodule-of-package":
+        others = [e for e in _siblings(target)] or [e for e in SUBMODULES if e[0] != target]
+        o = rng.choice(others)
+        body = [f"import {o[0]} as {alias}", "", f"def {fn}(environ):", ind + f"return {alias}.{o[1]}"]
+    elif hform == "package-only":
+        top = target.split(".")[0]
+        body = [f"import {top} as {alias}", "", f"def {fn}(environ):", ind + f"return {alias}.__name__"]
+    else:
+        raise KeyError(hform)
+    return "\n".join(body) + "\n", hform
+
+
+def import_pair_plan(seed: int) -> list:
+    """Every (import form of P, history form) combination, in an order fixed by the run's seed."""
+    combos = [(f, h) for f in IMPORT_FORMS for h in HISTORY_FORMS]
+    random.Random(f"c10-import-pairs-{seed}").shuffle(combos)
+    return combos
+
+
+def gen_import_pair(rng, index: int, seed: int = 0):
+    """Pair number `index` of the run: (P, H, target submodule, description)."""
+    plan = import_pair_plan(seed)
+    form, hform = plan[index % len(plan)]
+    place = IMPORT_PLACES[(index // len(plan) + index) % len(IMPORT_PLACES)]
+    if place == "module-level" and rng.random() < 0.7:
+        place = rng.choice(IMPORT_PLACES[:-1])
+    src, target, desc = gen_import_program(rng, form=form, place=place)
+    hsrc, hform = gen_import_history(rng, target, hform)
+    return src, hsrc, target, f"{desc} after {hform}"
+
+
+def fam_never_executed_import(rng):
+    return gen_import_program(rng)[0]
+
+
+def fam_import_loader(rng):
+    return gen_import_history(rng, rng.choice(SUBMODULES)[0])[0]
+
+
+# ---------------------------------------------------------------------------
+# class hierarchies whose diagnostics enumerate bases / overrides / abstract methods / protocol members
+
+_ATTR_DECLS = [("int", "0"), ("float", "0.0"), ("bytes", "b''"), ("List[int]", "[]"), ("Tuple[int, ...]", "()"), ("Dict[str, int]", "{}"),
+               ("bool", "False"), ("complex", "0j")]
+_CLASS_NAMES = ["Left", "Right", "Middle", "Upper", "Lower", "Inner", "Outer", "Near", "Far"]
+
+
+def fam_multi_base_override(rng):
+    """A class body whose assignments / methods conflict with the SAME attribute defined directly on 2-4 of its base
+    classes: several bases side by side, parent + grandparent (+ great-grandparent), or a diamond."""
+    k = rng.randrange(2, 5)
+    shape = rng.choice(["multiple", "chain", "diamond", "mixed"])
+    if shape == "diamond":
+        k = max(k, 3)
+    names = rng.sample(_CLASS_NAMES, k)
+    attrs = _names(rng, rng.randrange(1, 4))
+    meths = [m + "_m" for m in _names(rng, rng.randrange(0, 3))]
+    decls = rng.sample(_ATTR_DECLS, k)
+    body = []
+    for i, cn in enumerate(names):
+        if shape == "multiple":
+            bases = ""
+        elif shape == "chain":
+            bases = f"({names[i - 1]})" if i else ""
+        elif shape == "diamond":
+            bases = "" if i == 0 else f"({names[0]})"
+        else:
+            bases = f"({names[0]})" if i == 1 else ""
+        body.append(f"class {cn}{bases}:")
+        t, v = decls[i]
+        for a in attrs:
+            r = rng.random()
+            if r < 0.6:
+                body.append(f"    {a}: {t} = {v}")
+            elif r < 0.8:
+                body.append(f"    {a} = {v}")
+            else:
+                body.append(f"    {a}: {t}")
+        for m in meths:
+            body.append(f"    def {m}(self, a: {t}) -> {t}: return a")
+        if not attrs and not meths:
+            body.append("    pass")
+    if shape == "multiple":
+        child_bases = names
+    elif shape == "chain":
+        child_bases = [names[-1]]
+    elif shape == "diamond":
+        child_bases = names[1:]
+    else:
+        child_bases = names[1:]
+    if shape in ("multiple", "mixed") and rng.random() < 0.5:
+        child_bases = child_bases[::-1] if shape == "multiple" else child_bases
+    body.append(f"class Both({', '.join(child_bases)}):")
+    for a in attrs:
+        body.append("    " + rng.choice([f"{a} = 'unbounded'", f"{a}: str = 'x'", f"{a} = None", f"def {a}(self) -> str: return ''"]))
+    for m in meths:
+        body.append("    " + rng.choice([f"def {m}(self, a: str, extra) -> str: return a", f"{m} = 3", f"def {m}(self) -> None: pass"]))
+    body += ["def f(b: Both):", *[f"    reveal_type(b.{a})" for a in attrs[:2]], f"    first: {names[0]} = b", "    return first"]
+    if rng.random() < 0.4:
+        body += ["class Again(Both):", *[f"    {a} = 1.5j" for a in attrs[:2]]]
+    return "\n".join([HEADER, *body]) + "\n"
+
+
+def fam_abstract_and_protocol_bases(rng):
+    """Several unimplemented abstract methods, several missing protocol members, members supplied by different bases."""
+    n = rng.randrange(3, 6)
+    ms = _names(rng, n)
+    body = ["import abc", "class Shape(abc.ABC):"]
+    for m in ms:
+        body += ["    @abc.abstractmethod", f"    def {m}(self) -> int: ..."]
+    have = rng.sample(ms, rng.randrange(0, n - 1))
+    body.append("class Partial(Shape):")
+    body += [f"    def {m}(self) -> int: return 0" for m in have] or ["    pass"]
+    body.append("class WrongTypes(Shape):")
+    body += [f"    def {m}(self, extra: int) -> str: return ''" for m in ms]
+    ps = _names(rng, n)
+    body.append("class Proto(Protocol):")
+    for m in ps:
+        body.append(f"    def {m}(self) -> int: ..." if rng.random() < 0.7 else f"    {m}: int")
+    half = rng.randrange(0, n)
+    body += ["class MixA:", *([f"    def {m}(self) -> int: return 0" for m in ps[:half]] or ["    pass"])]
+    body += ["class MixB:", *([f"    def {m}(self) -> str: return ''" for m in ps[half:n - 1]] or ["    pass"])]
+    body += ["class Joined(MixA, MixB):", "    pass", "class JoinedRev(MixB, MixA):", "    pass",
+             "def want(p: Proto) -> None: ...", "def want_shape(s: Shape) -> None: ...",
+             "def f(j: Joined, r: JoinedRev, p: Partial):", "    Partial()", "    Shape()", "    WrongTypes()", "    want(j)", "    want(r)", "    want(p)",
+             "    want_shape(j)", "    x: Proto = r", "    reveal_type(Partial.__abstractmethods__)", "    reveal_type(p)"]
+    return "\n".join([HEADER, *body]) + "\n"
+
+
+def fam_reveal_locals(rng):
+    """reveal_locals() where several names are first bound inside branches / try bodies / loops."""
+    n = rng.randrange(3, 7)
+    ns = _names(rng, n + 2)
+    body = ["from pyanalyze.extensions import reveal_locals", "def g() -> Any: ...", f"def f(flag: int, {ns[-1]}: str):"]
+    kind = rng.choice(["if", "if-else", "try", "for", "elif"])
+    vals = [rng.choice(LITS) for _ in ns]
+    if rng.random() < 0.5:
+        body.append(f"    {ns[-2]} = {vals[-2]}")
+    if kind == "if":
+        body += ["    if flag:", *[f"        {a} = {v}" for a, v in zip(ns[:n], vals)]]
+    elif kind == "if-else":
+        h = n // 2
+        body += ["    if flag:", *([f"        {a} = {v}" for a, v in zip(ns[:h], vals)] or ["        pass"]), "    else:",
+                 *[f"        {a} = {v}" for a, v in zip(ns[h:n], vals[h:])]]
+    elif kind == "try":
+        body += ["    try:", *[f"        {a} = {v}" for a, v in zip(ns[:n], vals)], "    except ValueError:", f"        {ns[0]} = None"]
+    elif kind == "for":
+        body += ["    for item in g():", *[f"        {a} = {v}" for a, v in zip(ns[:n], vals)]]
+    else:
+        for i, (a, v) in enumerate(zip(ns[:n], vals)):
+            body += [f"    {'if' if i == 0 else 'elif'} flag == {i}:", f"        {a} = {v}", f"        shared = {v}"]
+    body += ["    reveal_locals()"]
+    if rng.random() < 0.5:
+        body += ["    if flag > 3:", f"        late = {rng.choice(LITS)}", f"        {ns[0]} = {rng.choice(LITS)}", "    reveal_locals()"]
+    return "\n".join([HEADER, *body]) + "\n"
+
+
+_SPELL_ATOMS = ["int", "str", "None", "bytes"]
+
+
+def fam_generic_union_spelling(rng):
+    """Common generic classes specialised with a small union (2-3 members out of 4 atoms, written in a random order and
+    in either spelling), read back through their generic bases (TypeVar solving against Sequence[T] / Iterable[T],
+    iteration, dict methods) and shown: programs of this family meet each other's specialisations in other spellings."""
+    def union(members):
+        if rng.random() < 0.5 and "None" not in members[:1]:
+            return " | ".join(members)
+        return "Union[" + ", ".join(members) + "]"
+    m1 = rng.sample(_SPELL_ATOMS, rng.choice([2, 2, 3]))
+    m2 = rng.sample(_SPELL_ATOMS, rng.choice([2, 3]))
+    u1, u2 = union(m1), union(m2)
+    seq = rng.choice(["List", "list", "typing.List", "List", "typing.Deque", "Sequence"])
+    body = ["T = TypeVar('T')", "def first(xs: Sequence[T]) -> T: return xs[0]", "def each(xs: typing.Iterable[T]) -> List[T]: return list(xs)",
+            f"def f(a: {seq}[{u1}], d: Dict[str, {u2}], t: Tuple[{u1}, ...], s: typing.Set[{u2}]):",
+            "    reveal_type(first(a))", "    for e in a:", "        reveal_type(e)", "    reveal_type(each(a))",
+            "    reveal_type(d.get('k'))", "    for v in d.values():", "        reveal_type(v)", "    reveal_type(first(t))",
+            "    reveal_type(each(s))", "    reveal_type(t[2])", "    first(a).no_such_attribute", "    reveal_type(sorted(s))"]
+    if rng.random() < 0.5:
+        body += [f"def g(o: Optional[{rng.choice([a for a in _SPELL_ATOMS if a != 'None'])}], l: List[Optional[int]]):", "    reveal_type(first([o]))",
+                 "    reveal_type(each(l))", "    for e in l:", "        reveal_type(e)"]
+    return "\n".join([HEADER, *body]) + "\n"
+
+
+class _Respell(ast.NodeTransformer):
+    """Rotate the members of every Union[...]/Literal[...] subscript; Optional[X] -> Union[None, X]; rotate `A | B | C`
+    chains inside annotations."""
+
+    def __init__(self):
+        self.changed = False
+        self.in_annotation = 0
+
+    @staticmethod
+    def _name(node):
+        return node.id if isinstance(node, ast.Name) else node.attr if isinstance(node, ast.Attribute) else None
+
+    def visit_Subscript(self, node):
+        self.generic_visit(node)
+        nm = self._name(node.value)
+        if nm in ("Union", "Literal") and isinstance(node.slice, ast.Tuple) and len(node.slice.elts) > 1:
+            node.slice.elts = node.slice.elts[1:] + node.slice.elts[:1]
+            self.changed = True
+        elif nm == "Optional" and not isinstance(node.slice, ast.Tuple):
+            self.changed = True
+            value = ast.copy_location(ast.Name(id="Union", ctx=ast.Load()), node.value) if isinstance(node.value, ast.Name) else \
+                ast.copy_location(ast.Attribute(value=node.value.value, attr="Union", ctx=ast.Load()), node.value)
+            return ast.copy_location(ast.Subscript(value=value, slice=ast.Tuple(elts=[ast.Constant(value=None), node.slice], ctx=ast.Load()), ctx=ast.Load()), node)
+        return node
+
+    def _annotation(self, node):
+        if node is None:
+            return None
+        self.in_annotation += 1
+        try:
+            return self.visit(node)
+        finally:
+            self.in_annotation -= 1
+
+    def visit_arg(self, node):
+        node.annotation = self._annotation(node.annotation)
+        return node
+
+    def visit_AnnAssign(self, node):
+        node.annotation = self._annotation(node.annotation)
+        if node.value is not None:
+            node.value = self.visit(node.value)
+        return node
+
+    def visit_FunctionDef(self, node):
+        node.returns = self._annotation(node.returns)
+        self.generic_visit(node)
+        return node
+
+    visit_AsyncFunctionDef = visit_FunctionDef
+
+    def visit_BinOp(self, node):
+        if not (self.in_annotation and isinstance(node.op, ast.BitOr)):
+            self.generic_visit(node)
+            return node
+        members = []
+
+        def flat(n):
+            if isinstance(n, ast.BinOp) and isinstance(n.op, ast.BitOr):
+                flat(n.left)
+                flat(n.right)
+            else:
+                members.append(self.visit(n))
+        flat(node)
+        members = members[1:] + members[:1]
+        if isinstance(members[0], ast.Constant) and members[0].value is None and len(members) > 1 and \
+                isinstance(members[1], ast.Constant) and members[1].value is None:
+            return node
+        self.changed = True
+        out = members[0]
+        for m in members[1:]:
+            out = ast.BinOp(left=out, op=ast.BitOr(), right=m)
+        return ast.copy_location(out, node)
+
+
+def respelled_twin(source: str):
+    """The same program with every union written in another member order (None if there is nothing to respell)."""
+    try:
+        tree = ast.parse(source)
+        tr = _Respell()
+        new = ast.fix_missing_locations(tr.visit(tree))
+        if not tr.changed:
+            return None
+        out = ast.unparse(new) + "\n"
+        ast.parse(out)
+        return out
+    except Exception:  # noqa: BLE001
+        return None
+
+
 FAMILIES = [
+    ("never-executed-import", fam_never_executed_import, 1), ("import-loader", fam_import_loader, 1),
+    ("generic-union-spelling", fam_generic_union_spelling, 3),
+    ("multi-base-override", fam_multi_base_override, 4), ("abstract-and-protocol-bases", fam_abstract_and_protocol_bases, 2),
+    ("reveal-locals", fam_reveal_locals, 2),
     ("in-narrowing", fam_in_narrowing, 3),
     ("or-isinstance", fam_or_isinstance, 4), ("or-literal", fam_or_literal, 3), ("and-or-mixed", fam_and_or_mixed, 2),
     ("try-assign", fam_try_assign, 4), ("unused-vars", fam_unused, 4), ("unexpected-kwargs", fam_unexpected_kwargs, 3),
